@@ -85,11 +85,11 @@ class Ctx:
     def build_model(self):
         """make the Coq development needed for extraction, extract, compile the OCaml driver (cached by mtime)."""
         with Lock('coq'):
-            rc, out = self._make(['Spec/Pipe.vo', 'Model/Seq.vo'])
+            rc, out = self._make(ALL_MODEL_VO)
             if rc != 0: return False, out
             srcs = [os.path.join(COQ, 'Model/Seq.vo'), os.path.join(COQ, 'Spec/Pipe.vo'), os.path.join(COQ, 'Extract/Extract.v'),
                     os.path.join(OCAML, 'driver.ml')]
-            extra = glob.glob(os.path.join(COQ, 'Model/*.vo'))
+            extra = glob.glob(os.path.join(COQ, 'Model/*.vo')) + [os.path.join(COQ, v) for v in ALL_MODEL_VO]
             newest = max(os.path.getmtime(p) for p in srcs + extra if os.path.exists(p))
             if os.path.exists(MODEL) and os.path.getmtime(MODEL) >= newest:
                 return True, 'model up to date'
@@ -101,6 +101,9 @@ class Ctx:
             return rc == 0, out + out2
 
     def _make(self, targets):
+        gen = ('SendClauses.v', 'Profile.v', 'Structure.v', 'VmemCalls.v', 'Kernels.v')
+        if not all(os.path.exists(os.path.join(COQ, 'gen', g)) for g in gen):
+            sh(['python3', os.path.join(ROOT, 'tools', 'extract_facts.py')])      # a tree without build output (fresh snapshot)
         if not os.path.exists(os.path.join(COQ, 'Makefile')) or \
            os.path.getmtime(os.path.join(COQ, 'Makefile')) < os.path.getmtime(os.path.join(COQ, '_CoqProject')):
             rc, out = sh('coq_makefile -f _CoqProject -o Makefile', cwd=COQ)
@@ -116,7 +119,15 @@ class Ctx:
                     try: os.remove(os.path.join(COQ, pf[:-2] + ext))
                     except FileNotFoundError: pass
             targets = [pf[:-2] + '.vo' for pf in propfiles]
+            # phase 1: everything the property files depend on (their own Print Assumptions output is not counted);
+            # phase 2: the property files alone, so that exactly their `Print Assumptions` lines are in the output
             rc, out = self._make(targets)
+            if rc == 0:
+                for pf in propfiles:
+                    for ext in ('.vo', '.glob', '.vok', '.vos'):
+                        try: os.remove(os.path.join(COQ, pf[:-2] + ext))
+                        except FileNotFoundError: pass
+                rc, out = self._make(targets)
         self.checker_cmds.append('make -C coq -j%d %s  (coq_makefile, coqc 8.16.1, full .vo build)' % (NCPU, ' '.join(targets)))
         files = self.closure(propfiles)
         n = 0
@@ -212,7 +223,11 @@ class Ctx:
         print(f'{self.prop}: OK ({self.tier}, {wall:.1f}s)')
         return 0
 
-ALL_MODEL_VO = ['Model/Seq.vo', 'Spec/Pipe.vo']
+def _extract_deps():
+    """the .vo files Extract/Extract.v requires (so that a tree without build output - a fresh snapshot - can extract)"""
+    txt = open(os.path.join(COQ, 'Extract', 'Extract.v')).read()
+    return sorted({m.replace('.', '/') + '.vo' for m in re.findall(r'MRB\.((?:Model|Spec|Conc|Base)\.\w+)', txt)})
+ALL_MODEL_VO = _extract_deps()
 
 def load_known():
     p = os.path.join(ROOT, 'known_findings.json')
